@@ -2,6 +2,7 @@
 From Coq Require Import NArith List Bool Arith.
 Import ListNotations.
 From HV Require Import lib.Harness model.Types spec.TypesS gen.StdBounds proofs.TypesP.
+From HV Require Import model.TypesSame spec.TypesSameS proofs.TypesSameP.
 
 (* The bound computed by type_bound() (for every class, including the std subclasses' overrides when they
    are used with the definitions they belong to: classes_ok) is Copyable exactly when every value of the
@@ -67,6 +68,36 @@ Theorem C07_static_array_rejects_iff_linear : forall elem,
   (static_array_accepts elem = None <-> tbound elem = None).
 Proof. exact static_array_rejects_iff_linear. Qed.
 
+(* ---- the reported bound survives every operation that hands the same type back (model/TypesSame.v:
+   Type.resolve / TypeArg.resolve, copy.copy / copy.deepcopy / dataclasses.replace, _to_serial().deserialize();
+   spec/TypesSameS.v: same_b) ---- *)
+
+(* resolving against a registry that knows none of the type's opaque types (extension absent, or present
+   without the type) hands back the very same type: every declared bound -- so the reported bound and every
+   serialised bound -- is what it was *)
+Theorem C07_unresolved_type_is_the_same : forall reg t, unknown_b reg t = true ->
+  resolve_ty reg t = t /\ tbound (resolve_ty reg t) = tbound t /\ ser_bounds (resolve_ty reg t) = ser_bounds t.
+Proof. exact resolve_unknown_same. Qed.
+
+(* against any registry built through the public API, the only change is opaque type -> extension type of the
+   same extension and name; variables, aliases and whatever stays opaque keep their declared bounds, at any depth *)
+Theorem C07_resolve_keeps_declared_bounds : forall reg t, reg_wf_b reg = true ->
+  same_b Resolved t (resolve_ty reg t) = true.
+Proof. exact resolve_keeps_declared. Qed.
+
+(* a type written and read back reports the bound the original reports; the document written from it carries,
+   record by record, the bounds of the original's; the only structural change is extension type -> opaque type
+   of its definition's extension and name.  The round trip succeeds on every well-formed type. *)
+Theorem C07_roundtrip_keeps_bounds : forall t t', rt_ty t = Some t' ->
+  tbound t' = tbound t /\ ser_bounds t' = ser_bounds t /\ same_b Serial t t' = true.
+Proof. exact roundtrip_keeps_bounds. Qed.
+Theorem C07_roundtrip_total : forall t, wf_b t = true -> rt_ty t <> None.
+Proof. exact roundtrip_total. Qed.
+
+(* the relation the monitor demands of copies (and of unresolved types) is equality of types *)
+Theorem C07_same_exact_is_equality : forall t t', same_b Exact t t' = true <-> t = t'.
+Proof. exact same_exact_iff. Qed.
+
 Print Assumptions C07_bound_copyable_iff.
 Print Assumptions C07_wellformed_types_have_a_bound.
 Print Assumptions C07_copy_b_reflects.
@@ -77,3 +108,8 @@ Print Assumptions C07_empty_sum_copyable.
 Print Assumptions C07_serialized_bound_is_computed.
 Print Assumptions C07_std_overrides_agree.
 Print Assumptions C07_static_array_rejects_iff_linear.
+Print Assumptions C07_unresolved_type_is_the_same.
+Print Assumptions C07_resolve_keeps_declared_bounds.
+Print Assumptions C07_roundtrip_keeps_bounds.
+Print Assumptions C07_roundtrip_total.
+Print Assumptions C07_same_exact_is_equality.
